@@ -69,7 +69,10 @@ func c44ForKey(l string) string        { return fmt.Sprintf("ALERTS_FOR_STATE{s=
 
 // eval advances the model by one rule evaluation at time now in which exactly the label sets in
 // present are returned by the alert expression.
-func (m *c44Model) eval(now int64, present map[string]bool) c44Expect {
+//
+// implPending is consulted only in the situation of the known finding (see c44Expect.Soft): it
+// reports whether the implementation turned the absent, kept-firing alert l into a pending one.
+func (m *c44Model) eval(now int64, present map[string]bool, implPending func(l string) bool) c44Expect {
 	var ex c44Expect
 	ev := func(s string) { ex.Events = append(ex.Events, s) }
 	m.Now = now
@@ -137,7 +140,7 @@ func (m *c44Model) eval(now int64, present map[string]bool) c44Expect {
 				break
 			}
 			ev("kept-firing")
-			if now-a.ActiveAt < m.For {
+			if now-a.ActiveAt < m.For && implPending != nil && implPending(l) {
 				// Statement: the alert stays firing. The implementation turns it into a pending
 				// alert although the expression does not return it (known finding); adopt that.
 				ex.Soft = l
@@ -278,10 +281,12 @@ func c44Cap(v, c int64) int64 {
 //     grow, so all ages >= c44MaxFor are equivalent;
 //   - resolved age: only compared with the retention (dropped when > retention), ages only grow,
 //     so all ages > retention are equivalent;
-//   - a stored ALERTS_FOR_STATE sample older than the outage tolerance is never looked at again
-//     (time only advances and a restore at ts >= Now reads [ts-tolerance, ts]); of a younger one
-//     only its age and the pending time it records (sample time - activation, compared with
-//     'for') matter.
+//   - newest stored ALERTS_FOR_STATE sample: its age is only compared with the outage tolerance
+//     (a restore at ts >= Now reads [ts-tolerance, ts]) and ages only grow, so all ages >
+//     tolerance are equivalent - but they stay distinct from "no sample", so that a restore is
+//     also executed on the real code with a too-old sample in the storage; of the value only the
+//     pending time it records (sample time - activation, compared with 'for') matters.
+// Every cap keeps both sides of its threshold as separate classes.
 func (m *c44Model) key() string {
 	var b strings.Builder
 	fmt.Fprintf(&b, "for=%d kff=%d par=%d restored=%v n=%d", m.For, m.Kff, m.Now%2, m.Restored, m.EvalsSinceRestart)
@@ -297,11 +302,11 @@ func (m *c44Model) key() string {
 				}
 			}
 		}
-		if s, ok := m.Stored[l]; ok && m.Now-s.T <= c44Tol {
+		if s, ok := m.Stored[l]; ok {
 			if s.Stale {
-				fmt.Fprintf(&b, " st%s:%d,stale", l, m.Now-s.T)
+				fmt.Fprintf(&b, " st%s:%d,stale", l, c44Cap(m.Now-s.T, c44Tol+1))
 			} else {
-				fmt.Fprintf(&b, " st%s:%d,spent=%d", l, m.Now-s.T, c44Cap(s.T-s.V, c44MaxFor))
+				fmt.Fprintf(&b, " st%s:%d,spent=%d", l, c44Cap(m.Now-s.T, c44Tol+1), c44Cap(s.T-s.V, c44MaxFor))
 			}
 		}
 	}
